@@ -11,7 +11,7 @@ W=$(mktemp -d /tmp/seedchk.XXXXXX)
 H=$(printf '%s' "$(readlink -f "$W")" | sha1sum | cut -c1-10)
 out=/verif/seeded/$name
 mkdir -p "$out"
-git -C /repo worktree add -q --detach "$W" HEAD || exit 3
+git -C /repo worktree add -q --detach "$W" "${SEED_BASE:-HEAD}" || exit 3   # SEED_BASE: the commit a stored change was written for (meta.json base_commit)
 cleanup() { git -C /repo worktree remove --force "$W" 2>/dev/null; rm -rf "$W"; rm -rf /verif/build/bin/*-scratch-$H /verif/build/mod-*-scratch-$H /verif/build/overlay-*-scratch-$H 2>/dev/null; }
 trap cleanup EXIT
 cd "$W"
